@@ -33,11 +33,14 @@ impl<const TOTAL_NUM_BITS: u32, const NUM_INDEX_BITS: u32>
     /// `pa.tick()` advances the phase accumulator by 1 tick, expected to be called at the sample rate
     pub fn tick(&mut self) {
         self.accumulator += self.increment;
-        self.accumulator &= self.rollover_mask;
 
-        if self.accumulator < self.last_accumulator {
+        // the cycle is complete as soon as the sum leaves the accumulator's range, this also holds for increments of
+        // one or more whole cycles per tick, which wrap around to a value that is not smaller than the last one
+        if self.rollover_mask < self.accumulator {
             self.rolled_over = true;
         }
+
+        self.accumulator &= self.rollover_mask;
 
         self.last_accumulator = self.accumulator
     }
